@@ -28,7 +28,7 @@ func (s envSpec) line() string {
 	var parts []string
 	for i, l := range envLevels {
 		if s.mask&(1<<uint(i)) != 0 && (s.stage || l != "stage") {
-			parts = append(parts, l+"="+s.vals[i])
+			parts = append(parts, l+"="+strings.ReplaceAll(s.vals[i], "=", "~"))
 		}
 	}
 	return "env " + strings.Join(parts, " ")
@@ -137,7 +137,7 @@ func envCase(col *Collector, s envSpec) {
 		}
 		cs.Fail, cs.Sig = fmt.Sprintf("command saw %s, expected %s", got, want), sig
 	}
-	cs.Impl = "N=" + strings.TrimSuffix(strings.TrimPrefix(strings.Fields(got + " N=[]")[0], "N=["), "]")
+	cs.Impl = "N=" + strings.ReplaceAll(strings.TrimSuffix(strings.TrimPrefix(strings.Fields(got + " N=[]")[0], "N=["), "]"), "=", "~")
 	col.Add(cs)
 }
 
@@ -329,6 +329,26 @@ func runC09(col *Collector, tier string, seed int64) {
 					s.vals[i] = fmt.Sprintf("%c-%s", 'a'+byte(rank*4), envLevels[i])
 				}
 				envs = append(envs, s)
+				// the same case with an EMPTY value at the highest defining level (above the parent environment):
+				// the name is defined there, so the empty value hides every level below
+				if top := s.topLevel(); top >= 1 && mask&(mask-1) != 0 && (mask+len(order))%3 == 0 {
+					e := s
+					e.vals = append([]string(nil), s.vals...)
+					e.vals[top] = ""
+					e.emptyTop = true
+					e.twoVar = false
+					envs = append(envs, e)
+				}
+				// the same case with values that contain "=" (an env_file line NAME=a=b keeps everything after the first "=")
+				if (mask+len(order))%4 == 1 {
+					e := s
+					e.vals = make([]string, len(s.vals))
+					for i, v := range s.vals {
+						e.vals[i] = strings.Replace(v, "-", "=", 1) + "=x"
+					}
+					e.twoVar = false
+					envs = append(envs, e)
+				}
 			}
 		}
 	}
